@@ -73,7 +73,8 @@ def run(module, cfg, scratch, workers=None, timeout=3600, env=None, dump=None, e
     meta = os.path.join(scratch.path, 'meta-%d' % int(time.time() * 1000))
     libs = [SPEC] + ([lib] if lib else [])
     cmd = ['java', '-XX:+UseParallelGC', '-Xmx' + heap, '-Xss256m',
-           '-DTLA-Library=' + os.pathsep.join(libs)]
+           '-DTLA-Library=' + os.pathsep.join(libs),
+           '-Djava.io.tmpdir=' + scratch.path]        # TLC's temporary directories go away with the scratch directory
     if deque:
         cmd.append('-Dtlc2.tool.queue.IStateQueue=StateDeque')
     cmd += ['-cp', JAR, 'tlc2.TLC', '-workers', str(workers), '-metadir', meta, '-noGenerateSpecTE',
